@@ -30,6 +30,204 @@ macro_rules! forms {
     };
 }
 
+/// Forms for operands that live in a session slot (`$a: &S`, `$b: &O`): the borrowed-argument forms (1, 3) pass the
+/// slot itself, so `$a` and `$b` may be the very same object; the owned-argument forms pass a clone.
+macro_rules! sforms {
+    ($S:ty, $O:ty, $R:ty, $m:expr, $own:expr, $a:expr, $b:expr) => {
+        match $own {
+            0 => meth!($S, $O, $R, $m, $a, $b.clone()),
+            1 => meth!($S, &$O, $R, $m, $a, $b),
+            2 => meth!(&$S, $O, $R, $m, &$a, $b.clone()),
+            3 => meth!(&$S, &$O, $R, $m, &$a, $b),
+            _ => return Err(BadOp),
+        }
+    };
+}
+
+/// State of one `ses` line: raw buffers, `Matrix` objects and `Vector` objects in numbered slots.
+#[derive(Default)]
+struct Ses {
+    bufs: std::collections::HashMap<usize, Vec<f64>>,
+    mats: std::collections::HashMap<usize, Matrix>,
+    vecs: std::collections::HashMap<usize, Vector>,
+}
+
+fn sl<'a>(st: &'a Ses, s: usize, o: usize, l: usize) -> R<&'a [f64]> {
+    let b = st.bufs.get(&s).ok_or(BadOp)?;
+    if o + l > b.len() {
+        return Err(BadOp);
+    }
+    Ok(&b[o..o + l])
+}
+
+/// One command of a session.  Commands: see /verif/lean/Compute/Drv/C05.lean.
+fn ses_cmd(st: &mut Ses, t: &mut Toks) -> R<String> {
+    let done = ok(String::new());
+    let op = t.tok()?;
+    match op {
+        // a slot is always emptied first, and the new object is allocated right after the old one was dropped
+        "v" => {
+            let s = t.usize()?;
+            let tmp = t.vec()?;
+            t.end()?;
+            st.bufs.remove(&s);
+            let fresh = tmp.clone();
+            if std::env::var_os("CV_C05_ADDR").is_some() {
+                eprintln!("buf {} {:p} {}", s, fresh.as_ptr(), fresh.len());
+            }
+            st.bufs.insert(s, fresh);
+            Ok(done)
+        }
+        "p" => {
+            let (s, i, x) = (t.usize()?, t.usize()?, t.f64()?);
+            t.end()?;
+            let b = st.bufs.get_mut(&s).ok_or(BadOp)?;
+            if i >= b.len() {
+                return Err(BadOp);
+            }
+            b[i] = x;
+            Ok(done)
+        }
+        "d" => {
+            let s = t.usize()?;
+            t.end()?;
+            st.bufs.remove(&s);
+            Ok(done)
+        }
+        "M" => {
+            let (s, r, c) = (t.usize()?, t.usize()?, t.usize()?);
+            let tmp = t.f64s(r * c)?;
+            t.end()?;
+            st.mats.remove(&s);
+            let m = Matrix::new(tmp.clone(), r as i32, c as i32);
+            if std::env::var_os("CV_C05_ADDR").is_some() {
+                eprintln!("mat {} {:p} {}", s, m.data.as_ptr(), m.data.len());
+            }
+            st.mats.insert(s, m);
+            Ok(done)
+        }
+        "pM" => {
+            let (s, i, x) = (t.usize()?, t.usize()?, t.f64()?);
+            t.end()?;
+            let m = st.mats.get_mut(&s).ok_or(BadOp)?;
+            if i >= m.data.len() {
+                return Err(BadOp);
+            }
+            m.data[i] = x;
+            Ok(done)
+        }
+        "dM" => {
+            let s = t.usize()?;
+            t.end()?;
+            st.mats.remove(&s);
+            Ok(done)
+        }
+        "V" => {
+            let s = t.usize()?;
+            let tmp = t.vec()?;
+            t.end()?;
+            st.vecs.remove(&s);
+            st.vecs.insert(s, Vector::from(tmp.clone()));
+            Ok(done)
+        }
+        "pV" => {
+            let (s, i, x) = (t.usize()?, t.usize()?, t.f64()?);
+            t.end()?;
+            let v = st.vecs.get_mut(&s).ok_or(BadOp)?;
+            if i >= v.len() {
+                return Err(BadOp);
+            }
+            v[i] = x;
+            Ok(done)
+        }
+        "dV" => {
+            let s = t.usize()?;
+            t.end()?;
+            st.vecs.remove(&s);
+            Ok(done)
+        }
+        "mm" | "mb" => {
+            let blocked = op == "mb";
+            let (ta, tb) = (flag(t)?, flag(t)?);
+            let (ra, rb) = (t.usize()?, t.usize()?);
+            let bs = if blocked { t.usize()? } else { 0 };
+            let (sa, oa, la) = (t.usize()?, t.usize()?, t.usize()?);
+            let (sb, ob, lb) = (t.usize()?, t.usize()?, t.usize()?);
+            t.end()?;
+            let a = sl(st, sa, oa, la)?;
+            let b = sl(st, sb, ob, lb)?;
+            let r = if blocked { matmul_blocked(a, b, ra, rb, ta, tb, bs) } else { matmul(a, b, ra, rb, ta, tb) };
+            Ok(ok(show_vec(&r)))
+        }
+        "xtx" => {
+            let (k, s, o, l) = (t.usize()?, t.usize()?, t.usize()?, t.usize()?);
+            t.end()?;
+            Ok(ok(show_vec(&xtx(sl(st, s, o, l)?, k))))
+        }
+        "tr" => {
+            let (k, s, o, l) = (t.usize()?, t.usize()?, t.usize()?, t.usize()?);
+            t.end()?;
+            Ok(ok(show_vec(&transpose(sl(st, s, o, l)?, k))))
+        }
+        "dmm" => {
+            let m = t.tok()?;
+            let (own, sa, sb) = (t.usize()?, t.usize()?, t.usize()?);
+            t.end()?;
+            let a = st.mats.get(&sa).ok_or(BadOp)?;
+            let b = st.mats.get(&sb).ok_or(BadOp)?;
+            let res: Matrix = sforms!(Matrix, Matrix, Matrix, m, own, a, b);
+            Ok(ok(format!("{} {} {}", res.nrows, res.ncols, show_fs(&res.data))))
+        }
+        "dmv" => {
+            let m = t.tok()?;
+            let (own, sa, sb) = (t.usize()?, t.usize()?, t.usize()?);
+            t.end()?;
+            let a = st.mats.get(&sa).ok_or(BadOp)?;
+            let b = st.vecs.get(&sb).ok_or(BadOp)?;
+            let res: Vector = sforms!(Matrix, Vector, Vector, m, own, a, b);
+            Ok(ok(show_vec(&res)))
+        }
+        "dvm" => {
+            let m = t.tok()?;
+            let (own, sa, sb) = (t.usize()?, t.usize()?, t.usize()?);
+            t.end()?;
+            let a = st.vecs.get(&sa).ok_or(BadOp)?;
+            let b = st.mats.get(&sb).ok_or(BadOp)?;
+            let res: Vector = sforms!(Vector, Matrix, Vector, m, own, a, b);
+            Ok(ok(show_vec(&res)))
+        }
+        "dvv" => {
+            let m = t.tok()?;
+            let (own, sa, sb) = (t.usize()?, t.usize()?, t.usize()?);
+            t.end()?;
+            let a = st.vecs.get(&sa).ok_or(BadOp)?;
+            let b = st.vecs.get(&sb).ok_or(BadOp)?;
+            let res: f64 = sforms!(Vector, Vector, f64, m, own, a, b);
+            Ok(ok(show_f(res)))
+        }
+        // a Matrix with its own data vector: m.meth(&m.data) and m.data.meth(&m)
+        "dmd" => {
+            let m = t.tok()?;
+            let (own, sa) = (t.usize()?, t.usize()?);
+            t.end()?;
+            let a = st.mats.get(&sa).ok_or(BadOp)?;
+            let b = &a.data;
+            let res: Vector = sforms!(Matrix, Vector, Vector, m, own, a, b);
+            Ok(ok(show_vec(&res)))
+        }
+        "ddm" => {
+            let m = t.tok()?;
+            let (own, sa) = (t.usize()?, t.usize()?);
+            t.end()?;
+            let b = st.mats.get(&sa).ok_or(BadOp)?;
+            let a = &b.data;
+            let res: Vector = sforms!(Vector, Matrix, Vector, m, own, a, b);
+            Ok(ok(show_vec(&res)))
+        }
+        _ => Err(BadOp),
+    }
+}
+
 fn flag(t: &mut Toks) -> R<bool> {
     match t.usize()? {
         0 => Ok(false),
@@ -117,6 +315,33 @@ fn step(_: &mut (), t: &mut Toks) -> R<String> {
             let b = Vector::from(d2);
             let res: f64 = forms!(Vector, Vector, f64, m, own, a, b);
             Ok(ok(show_f(res)))
+        }
+        // `ses cmd | cmd | ...`: commands run in order on one state, each under its own catch_unwind;
+        // reply `= r1 | r2 | ...` with ri = `ok ...` or `panic`
+        "ses" => {
+            let mut st = Ses::default();
+            let mut out: Vec<String> = Vec::new();
+            let mut cur: Vec<&str> = Vec::new();
+            let mut cmds: Vec<Vec<&str>> = Vec::new();
+            while let Ok(x) = t.tok() {
+                if x == "|" {
+                    cmds.push(std::mem::take(&mut cur));
+                } else {
+                    cur.push(x);
+                }
+            }
+            cmds.push(cur);
+            for c in cmds {
+                let line = c.join(" ");
+                let mut ct = Toks::new(&line);
+                let r = std::panic::catch_unwind(std::panic::AssertUnwindSafe(|| ses_cmd(&mut st, &mut ct)));
+                match r {
+                    Ok(Ok(s)) => out.push(format!("ok{}", &s[1..])),
+                    Ok(Err(BadOp)) => return Err(BadOp),
+                    Err(_) => out.push("panic".to_string()),
+                }
+            }
+            Ok(ok(out.join(" | ")))
         }
         _ => Err(BadOp),
     }
